@@ -74,20 +74,33 @@ Proof.
   destruct (IHm r). cbn [length]. lia.
 Qed.
 
+Lemma list_eqb_eq a : forall b, list_eqb a b = true -> a = b.
+Proof.
+  induction a as [|x a IH]; intros [|y b] H; cbn [list_eqb] in H; try discriminate; [reflexivity|].
+  apply andb_true_iff in H. destruct H as [H1 H2]. f_equal; [lia|apply IH; exact H2].
+Qed.
+
+Lemma is_sub_single u al : is_sub [u] al = memz u al.
+Proof.
+  induction al as [|a r IH]; [reflexivity|].
+  cbn [is_sub is_prefix memz]. rewrite IH. rewrite andb_true_r. reflexivity.
+Qed.
+
 Ltac splits := repeat match goal with |- _ /\ _ => split end.
 
 Section Proofs.
 Variable cw : Z -> Z.
 Variable upper : Z -> list Z.
+Variable lower : list Z -> list Z.
 
-Notation step := (step cw upper).
-Notation run := (run cw upper).
-Notation keypress := (keypress cw upper).
-Notation keypress_edit := (keypress_edit cw upper).
-Notation valid_char := (valid_char cw upper).
-Notation ref_step := (ref_step cw upper).
-Notation ref_key := (ref_key cw upper).
-Notation ref_run := (ref_run cw upper).
+Notation step := (step cw upper lower).
+Notation run := (run cw upper lower).
+Notation keypress := (keypress cw upper lower).
+Notation keypress_edit := (keypress_edit cw upper lower).
+Notation valid_char := (valid_char cw upper lower).
+Notation ref_step := (ref_step cw upper lower).
+Notation ref_key := (ref_key cw upper lower).
+Notation ref_run := (ref_run cw upper lower).
 Notation move_cursor_to_coords := (move_cursor_to_coords cw).
 
 (* ---------- the setters, as single updates ---------- *)
@@ -828,18 +841,19 @@ Proof.
   split; [cbn [forallb]; unfold int_alpha; rewrite H1; reflexivity|intros D; discriminate D].
 Qed.
 
-(* NumEdit / IntegerEdit / FloatEdit: sound as far as str.upper maps nothing foreign into the
-   allowed string *)
-Definition upper_honest (allowed : list Z) : Prop :=
-  forall c, is_sub (upper c) allowed = true -> num_alpha allowed c = true.
+(* NumEdit / IntegerEdit / FloatEdit.  [code_alpha] is literally what NumEdit.valid_char tests of an
+   accepted character: its upper-case form occurs in the allowed string and the character is that
+   form or the lower-case form of it. *)
+Definition code_alpha (allowed : list Z) (c : Z) : bool :=
+  is_sub (upper c) allowed && (list_eqb [c] (upper c) || list_eqb [c] (lower (upper c))).
 
 Lemma num_filter_sound s0 al tr ng :
-  var s0 = VNum al tr ng -> upper_honest al -> filter_sound_cfg (num_alpha al) ng s0.
+  var s0 = VNum al tr ng -> filter_sound_cfg (code_alpha al) ng s0.
 Proof.
-  intros Hv HU s C cs H. destruct C as [C _]. unfold Edit.valid_char in H. rewrite C, Hv in H.
-  destruct cs as [|c [|c' r]]; try discriminate.
-  destruct (is_sub (upper c) al) eqn:E.
-  - left. cbn [forallb]. rewrite (HU c E). split; [reflexivity|]. intros _. injection H as H1. exact H1.
+  intros Hv s C cs H. destruct C as [C _]. unfold Edit.valid_char in H. rewrite C, Hv in H.
+  destruct cs as [|c [|c' r]]; try discriminate. cbv zeta in H.
+  destruct (is_sub (upper c) al && (list_eqb [c] (upper c) || list_eqb [c] (lower (upper c)))) eqn:E.
+  - left. cbn [forallb]. unfold code_alpha. rewrite E. split; [reflexivity|]. intros _. injection H as H1. exact H1.
   - right. injection H as H1.
     apply andb_true_iff in H1. destruct H1 as [H1 H4].
     apply andb_true_iff in H1. destruct H1 as [H1 H3].
@@ -850,15 +864,47 @@ Proof.
     + destruct (memz 45 (text s)); [discriminate|reflexivity].
 Qed.
 
+(* no hypothesis on upper / lower: every character of the text passed the test of the code *)
+Theorem numeric_alphabet_num_code es s al tr ng :
+  var s = VNum al tr ng -> allow_tab s = false -> multiline s = false ->
+  num_ok (code_alpha al) ng (text s) = true -> Inv s ->
+  Forall (fun o => num_ok (code_alpha al) ng (text (fst (fst o))) = true) (snd (run s es)).
+Proof.
+  intros Hv Ht Hm Hn HI. apply numeric_run.
+  - unfold NumInv. auto.
+  - apply (num_filter_sound s al tr ng); assumption.
+Qed.
+
+(* towards the ASCII alphabet: the only fact about str.upper / str.lower that is still needed *)
+Definition lower_honest (allowed : list Z) : Prop :=
+  forall c, is_sub (upper c) allowed = true -> lower (upper c) = [c] -> num_alpha allowed c = true.
+
+Lemma code_alpha_num_alpha al : lower_honest al -> forall c, code_alpha al c = true -> num_alpha al c = true.
+Proof.
+  intros HL c H. unfold code_alpha in H.
+  apply andb_true_iff in H. destruct H as [H1 H2].
+  apply orb_true_iff in H2. destruct H2 as [H2|H2]; apply list_eqb_eq in H2.
+  - rewrite <- H2 in H1. rewrite is_sub_single in H1. unfold num_alpha. rewrite H1. reflexivity.
+  - apply HL; [exact H1|symmetry; exact H2].
+Qed.
+
+Lemma filter_sound_weaken (a b : Z -> bool) ng s0 :
+  (forall c, a c = true -> b c = true) -> filter_sound_cfg a ng s0 -> filter_sound_cfg b ng s0.
+Proof.
+  intros W H s C cs V. destruct (H s C cs V) as [[A B]|R]; [left|right; exact R].
+  split; [|exact B]. clear - W A. induction cs as [|c r IH]; [reflexivity|].
+  cbn [forallb] in *. apply andb_true_iff in A. destruct A as [A1 A2]. rewrite (W c A1), (IH A2). reflexivity.
+Qed.
 
 Theorem numeric_alphabet_num es s al tr ng :
-  var s = VNum al tr ng -> upper_honest al -> allow_tab s = false -> multiline s = false ->
+  var s = VNum al tr ng -> lower_honest al -> allow_tab s = false -> multiline s = false ->
   num_ok (num_alpha al) ng (text s) = true -> Inv s ->
   Forall (fun o => num_ok (num_alpha al) ng (text (fst (fst o))) = true) (snd (run s es)).
 Proof.
-  intros Hv HU Ht Hm Hn HI. apply numeric_run.
+  intros Hv HL Ht Hm Hn HI. apply numeric_run.
   - unfold NumInv. auto.
-  - apply (num_filter_sound s al tr ng); assumption.
+  - apply (filter_sound_weaken (code_alpha al)); [apply code_alpha_num_alpha; exact HL|].
+    apply (num_filter_sound s al tr ng); assumption.
 Qed.
 
 Theorem numeric_alphabet_int es s :
@@ -879,37 +925,9 @@ Qed.
 
 End Proofs.
 
-(* an upper-casing that is ASCII-only satisfies the hypothesis, for every allowed string *)
-Lemma is_sub_single u al : is_sub [u] al = memz u al.
+(* ASCII-only case mapping satisfies the remaining hypothesis, for every allowed string; the harness
+   checks it for the real str.upper / str.lower over all code points for the alphabets it uses *)
+Lemma lower_honest_ascii lower al : lower_honest (fun c => [ascii_upper c]) lower al.
 Proof.
-  induction al as [|a r IH]; [reflexivity|].
-  cbn [is_sub is_prefix memz]. rewrite IH. rewrite andb_true_r. reflexivity.
-Qed.
-
-Lemma upper_honest_ascii al : upper_honest (fun c => [ascii_upper c]) al.
-Proof. intros c H. rewrite is_sub_single in H. exact H. Qed.
-
-(* ... and one that maps U+017F to 'S', as str.upper does, breaks the invariant *)
-Definition numeric_alphabet_statement (cw : Z -> Z) (upper : Z -> list Z) : Prop :=
-  forall es s al tr ng,
-    var s = VNum al tr ng -> allow_tab s = false -> multiline s = false ->
-    num_ok (num_alpha al) ng (text s) = true -> Inv s ->
-    Forall (fun o => num_ok (num_alpha al) ng (text (fst (fst o))) = true) (snd (run cw upper s es)).
-
-Theorem numeric_alphabet_refuted cw upper :
-  upper 383 = [83] -> ~ numeric_alphabet_statement cw upper.
-Proof.
-  intros HU H.
-  specialize (H [EKey (KText [383]) 1 []]
-                (init [] [] None false false None (integer_variant 36 false))
-                (takez 36 ALLOWED) false false eq_refl eq_refl eq_refl eq_refl (init_inv _ _ _ _ _ _ _)).
-  cbn [Edit.run] in H.
-  assert (E: step cw upper (init [] [] None false false None (integer_variant 36 false)) (EKey (KText [383]) 1 [])
-             = (put (init [] [] None false false None (integer_variant 36 false)) [383] 1,
-                [SChange [383] [] 0; SPost [] [383] 0], Ok RHandled)).
-  { cbn [Edit.step]. unfold keypress, keypress_edit, valid_char.
-    change (var (init [] [] None false false None (integer_variant 36 false))) with (VNum (takez 36 ALLOWED) false false).
-    rewrite HU. vm_compute. reflexivity. }
-  rewrite E in H. cbn [snd fst] in H. inversion H as [|x l H1 H2]; subst.
-  vm_compute in H1. discriminate.
+  intros c H _. rewrite is_sub_single in H. unfold num_alpha. rewrite H. apply orb_true_r.
 Qed.
